@@ -220,6 +220,11 @@ C06conc(E, tags) == HasTag(tags, "released-before-resume") =>
   LET acs == { p \in Pos(E) : E[p].ev = "acsub" } IN
   /\ acs # {}
   /\ \A p \in Pos(E) : (E[p].ev = "emitcall" /\ E[p].src = 2 /\ \E a \in acs : a < p) => E[p].cnt <= 0          \* (-1 = count not observable in this build)
+\* tag "no-observer-left": every subscriber of the case ends by itself (take(1) / first on an item that another thread emits
+\* while it is still subscribing); if it has ended by then, the probe item 99 sent at the very end finds the subject holding no observer
+\* (in schedules in which the subscriber missed the racing items it is legitimately still subscribed when the probe item comes)
+C06left(E, tags) == HasTag(tags, "no-observer-left") =>
+  \A p \in Pos(E) : (E[p].ev = "emitcall" /\ E[p].v = 99 /\ \E q \in 1..(p - 1) : E[q].ev = "cbend" /\ E[q].u = 1 /\ E[q].k \in {"c", "e"}) => E[p].cnt <= 0
 
 \* tag "ends-with": an error raised by one input of a multi-input operator while another thread is delivering items of another
 \* input still reaches the subscriber - exactly once, as the last event, with its payload (q.expect = the terminal)
@@ -300,7 +305,7 @@ C13ok(E, tags, q, period) ==
 
 Judge(E, tags, q) ==
   LET fin == q.fin IN
-  [C04 |-> IF C04ok(E, tags, q) /\ C04ends(E, tags, q) THEN "ok" ELSE "bad", C06 |-> IF C06conc(E, tags) THEN "ok" ELSE "bad", C14 |-> IF C14ok(E, tags, q, q.period) THEN "ok" ELSE "bad", C09 |-> IF C09ok(E, tags, q) THEN "ok" ELSE "bad", C15 |-> IF C15ok(E, tags, q, q.period) THEN "ok" ELSE "bad",
+  [C04 |-> IF C04ok(E, tags, q) /\ C04ends(E, tags, q) THEN "ok" ELSE "bad", C06 |-> IF C06conc(E, tags) /\ C06left(E, tags) THEN "ok" ELSE "bad", C14 |-> IF C14ok(E, tags, q, q.period) THEN "ok" ELSE "bad", C09 |-> IF C09ok(E, tags, q) THEN "ok" ELSE "bad", C15 |-> IF C15ok(E, tags, q, q.period) THEN "ok" ELSE "bad",
    C16 |-> IF C16ok(E, tags, q, q.period) THEN "ok" ELSE "bad", C13 |-> IF C13ok(E, tags, q, q.period) THEN "ok" ELSE "bad", C18 |-> IF ~HasTag(tags, "tovec") \/ C18ok(E, q) THEN "ok" ELSE "bad",
    C08 |-> IF ~(HasTag(tags, "queue") \/ HasTag(tags, "default_queue")) \/ C08ok(E, tags, q) THEN "ok" ELSE "bad",
    C19 |-> IF C19ok(E) THEN "ok" ELSE "bad", C05 |-> IF C05ok(E) THEN "ok" ELSE "bad",
